@@ -121,7 +121,21 @@ def check_dynamic(prop, tier, seed):
     v = Verdict(prop)
     t0 = time.time()
     jobs = dynamic_jobs(tier, seed, prop)
+    apa = None
+    apa_future = None
+    if prop in ("C03", "C04"):
+        # design-level obligations over SYMBOLIC scenarios (Apalache), run beside the TLC jobs
+        import concurrent.futures as cf
+        from harness import apalache
+        which = None if prop == "C03" else ["IndInv /\\ Next => Monotone"]
+        pool_ = cf.ThreadPoolExecutor(max_workers=1)
+        apa_future = pool_.submit(apalache.run, which)
     results = dynamic.run_jobs(jobs, procs=12 if tier == "thorough" else 8)
+    if apa_future is not None:
+        apa = apa_future.result()
+        for (n_, ok_, sec_, tail_) in apa:
+            if not ok_:
+                v.machinery.append("Apalache obligation '%s' on NASimSym.tla not discharged: %s" % (n_, tail_[-300:]))
     states = transitions = events = edges = 0
     classes = set()
     clause_fail = collections.Counter()
@@ -170,6 +184,9 @@ def check_dynamic(prop, tier, seed):
                per_scenario=per_scn,
                failed_clauses={"%s/%s" % k: n for k, n in clause_fail.items()},
                drift_notes={"%s/%s" % k: n for k, n in drift.items()}, notes=notes)
+    if apa is not None:
+        cov["apalache_symbolic_scenario_obligations"] = [dict(obligation=n_, discharged=ok_, seconds=sec_)
+                                                        for (n_, ok_, sec_, _) in apa]
     common.write_evidence(prop, tier, seed, "model_checking", cov, time.time() - t0, len(v.violations))
     return v.finish()
 
